@@ -1435,7 +1435,6 @@ func c05IsOCIDescriptor(t types.Type) bool {
 	return ok && n.Obj().Name() == "Descriptor" && n.Obj().Pkg() != nil && strings.HasSuffix(n.Obj().Pkg().Path(), "image-spec/specs-go/v1")
 }
 
-
 func c05R2Wrappers(c *Ctx) {
 	const R = "C05.R2.wrapper-forwards-descriptor"
 	c.Expect(R, 8)
